@@ -47,11 +47,17 @@ RULE = ("seeded random cases for each of the six tools (yaml-get, yaml-set, yaml
         "one to three lines and paragraph breaks, literal | / |-, numbers, Booleans) at top level, in mappings, in lists; "
         "`-g PATH --saveto NEWPATH -a WORD` (both separators, file / '-', -b): the result reloads (ruamel safe loader) to the document the "
         "set model predicts: old value - same data - at NEWPATH, WORD at PATH, the rest untouched.  "
+        "yaml-set over document roots of every kind (400 cases, own stream; ordinary yaml-set pipeline): the root is an empty Array, an "
+        "empty Hash, an empty !!set, one of the scalars 0 / false / '' / 0.0 / 5 / true / text, null, or a small Array / set / Hash, "
+        "written as YAML or JSON, delivered as file / '-' / implicit stdin, x change paths whose first segment fits or does not fit that "
+        "root (keys, nested keys, indexes, negative index, slice, wildcards, searches, the root itself; creating segments are handed to "
+        "the Lean model) x value / delete / null / value file: exit status and the reloaded result equal the library replay on the SAME "
+        "loaded document (only a null document is 'no document'; a refused change exits 1 and leaves the file as it was).  "
         "distinct_nontrivial = distinct (tool, input text, argument vector) whose run reached the library (arguments accepted, input loaded).")
 
 HELP_LINE = "Please try --help for more information."
 QUICK = {"get": 2600, "set": 2200, "merge": 1300, "diff": 1500, "validate": 1500, "paths": 1300, "paths-alias": 500, "dates": 500, "merge-config": 400,
-         "mergekeys": 400, "saveto": 400}
+         "mergekeys": 400, "saveto": 400, "set-roots": 400}
 
 
 def _n(tool, tier):
@@ -425,6 +431,35 @@ def gen_set(rng):
     if src["k"] == "stdin" and case["delivery"] != "file" and rng.random() < 0.7:
         case["delivery"] = "file"
     return case
+
+
+# Document roots of every kind.  gen_set only writes non-empty Hash roots; yaml-set has a branch of its own for "no document
+# there" (a null document is replaced by one built from the change path), and the line between "no document" and "a document
+# that is merely empty / falsy" ([], {}, 0, false, '', 0.0, an empty !!set) - as well as Array and scalar roots in general -
+# is only met by these cases.  Judged by the ordinary yaml-set pipeline (library replay -> Lean model of main()).
+ROOTS = [{"k": "seq", "i": []}, {"k": "seq", "i": []}, {"k": "map", "e": []}, {"k": "set", "m": []},
+         {"k": "int", "v": "0"}, {"k": "bool", "v": False}, {"k": "str", "v": ""}, {"k": "float", "m": "0", "e": 0},
+         {"k": "int", "v": "5"}, {"k": "bool", "v": True}, {"k": "str", "v": "text"}, {"k": "null"},
+         {"k": "seq", "i": [{"k": "int", "v": "0"}]}, {"k": "seq", "i": [{"k": "str", "v": "a"}, {"k": "int", "v": "2"}]},
+         {"k": "seq", "i": [{"k": "map", "e": [["a", {"k": "int", "v": "1"}]]}, {"k": "map", "e": []}]},
+         {"k": "seq", "i": [{"k": "seq", "i": []}]}, {"k": "set", "m": ["a", "b"]}, {"k": "map", "e": [["a", {"k": "seq", "i": []}]]}]
+ROOT_CHANGES = [("a", [["k", "a"]]), ("a.b", [["k", "a"], ["k", "b"]]), ("settings.enabled", [["k", "settings"], ["k", "enabled"]]),
+                ("/a", None), ("/a/b", None), ("[0]", [["i", 0]]), ("[1]", [["i", 1]]), ("[-1]", None), ("[0].a", [["i", 0], ["k", "a"]]),
+                ("a[0]", [["k", "a"], ["i", 0]]), ("/0", None), ("0", None), ("*", None), ("**", None), ("/", None), ("[.=0]", None),
+                ("[.=a]", None), ("[0:1]", None), ("b", [["k", "b"]]), ("new.sub[0]", [["k", "new"], ["k", "sub"], ["i", 0]])]
+
+
+def gen_set_roots(rng):
+    doc = json.loads(json.dumps(rng.choice(ROOTS)))
+    fmt_in = "json" if (doc["k"] != "set" and rng.random() < 0.25) else "yaml"
+    x = rng.random()
+    src = ({"k": "value", "v": rng.choice(SET_VALUES)} if x < 0.7 else {"k": "delete"} if x < 0.82 else {"k": "null"} if x < 0.9
+           else {"k": "file", "v": rng.choice(SET_VALUES) + rng.choice(["", "\n"])})
+    change, segs = rng.choice(ROOT_CHANGES)
+    return {"tool": "set", "roots": True, "doc": doc, "fmt_in": fmt_in, "change": change, "segs": segs, "src": src,
+            "fmt": rng.choice(ed.FORMATS[:6]), "mustexist": rng.random() < 0.25, "backup": rng.random() < 0.25,
+            "check": None, "saveto": None, "delivery": rng.choice(["file", "file", "dash", "implicit"]),
+            "keys": {"priv": "unset", "pub": "unset"}, "bad": None, "anchor": None, "tag": False, "randomfrom": None}
 
 
 def lib_set(text, case):
@@ -2562,6 +2597,12 @@ def gen_cases(seed, tier, only=None):
             rng = random.Random("%s:merge-config" % seed)
             for i in range(_n("merge-config", tier)):
                 c = gen_merge_config(rng)
+                c["sub"] = rng.random() < (0.012 if tier == "quick" else 0.004)
+                cases.append(c)
+        if tool == "set":
+            rng = random.Random("%s:set-roots" % seed)
+            for i in range(_n("set-roots", tier)):
+                c = gen_set_roots(rng)
                 c["sub"] = rng.random() < (0.012 if tier == "quick" else 0.004)
                 cases.append(c)
         if tool == "paths":
